@@ -8,6 +8,7 @@ CLASSES = [
     "dense", "sparse_closed", "missing_suffix", "neginf_children", "unigram_only",
     "empty_middle", "arpa", "explicit_sos_hist", "single_vocab", "width255",
     "deep_narrow", "missing_suffix", "arpa", "order4_sparse", "width255", "fat_inner_node",
+    "dead_end_context",
 ]
 SOS_KINDS = ["sos_in_vocab", "sos_out_of_vocab", "sos_negative"]
 CHUNKS = [1, 2, 3, 7]
@@ -154,6 +155,34 @@ def gen_table(rng, V, sos, N, mode, counts=None):
     return table
 
 
+def gen_dead_end(rng, symbols, N, d):
+    """Token d starts no listed n-gram (it only ever ends one), yet long contexts ending in d are listed with their
+    own back-off weights: after d every candidate falls off the trie at the second level while the context path
+    itself goes on to full depth."""
+    others = [s for s in symbols if s != d] or [d]
+    levels = [[(s,) for s in symbols]]
+    for n in range(2, N + 1):
+        cur = set()
+        for _ in range(rng.randint(2, 3 * n + 4)):
+            k = tuple(rng.choice(others) for _ in range(n - 1)) + (rng.choice(symbols),)
+            cur.add(k)
+        if n < N:
+            for _ in range(rng.randint(1, 3)):
+                cur.add(tuple(rng.choice(others) for _ in range(n - 1)) + (d,))
+        levels.append(cur)
+    if rng.random() < 0.7:
+        # contexts of every length along one path ending in d
+        path = tuple(rng.choice(others) for _ in range(N - 2)) + (d,)
+        for n in range(2, N):
+            levels[n - 1].add(path[-n:])
+    table = []
+    for n, ks in enumerate(levels):
+        keys = [list(k) for k in sorted(ks)]
+        rng.shuffle(keys)
+        table.append([[k, _logp(rng, 0.0), _logb(rng) or -0.625] for k in keys])
+    return table
+
+
 def gen_hist(rng, table, V, sos, T, B, explicit_sos=False, p_top=0.6):
     """B histories of length T over the vocabulary, spliced from listed n-grams (so that
     high-order entries are hit) and random tokens (so that back-off happens)."""
@@ -248,7 +277,14 @@ def gen_case(rng, tier, i):
         c4 = rng.randint(40, 256 - c3)
         counts = [S, c2, c3, c4]
         mode = "exact"
-    table = gen_table(rng, V, sos, N, mode, counts)
+    dead = None
+    if cls == "dead_end_context":
+        V, N = rng.randint(2, 6), rng.choice([4, 4, 4, 5, 3])
+        sos = pick_sos(rng, V, kind)
+        dead = rng.randrange(V)
+        table = gen_dead_end(rng, list(range(V)) + ([] if 0 <= sos < V else [sos]), N, dead)
+    else:
+        table = gen_table(rng, V, sos, N, mode, counts)
     B = rng.randint(1, 4)
     T = rng.randint(0, 14 if big else 7)
     if i % 11 == 0:
@@ -258,6 +294,15 @@ def gen_case(rng, tier, i):
         # the nodes at risk are the highest-order entries allocated last: query many of them
         B, T, p_top = 4, rng.randint(6, 14 if big else 7), 0.95
     hist = gen_hist(rng, table, V, sos, T, B, explicit_sos=(cls == "explicit_sos_hist"), p_top=p_top)
+    if dead is not None:
+        # every history of the call ends in a listed context that ends in the dead-end token
+        B, T = rng.choice([1, 1, 2, 3]), rng.randint(N - 1, 7)
+        ctx = [e[0] for level in table[1:-1] for e in level if e[0][-1] == dead and all(0 <= t < V for t in e[0])]
+        hist = []
+        for _ in range(B):
+            c = max(ctx, key=len) if (ctx and rng.random() < 0.6) else (rng.choice(ctx) if ctx else [dead])
+            h = [rng.randrange(V) for _ in range(T)] + list(c)
+            hist.append(h[-T:])
     case = {
         "class": cls, "sos_kind": kind, "V": V, "sos": sos, "N": N, "table": table,
         "T": T, "B": B, "hist": hist, "idx": gen_idx(rng, T, B),
